@@ -383,7 +383,7 @@ func c09Sched(c *vrep.Ctx) {
 				msg = "classifier state changed by concurrent Match calls"
 			}
 		}
-		r.Note = map[string]interface{}{"msg": msg, "switches": s.Switches, "steps": s.Steps, "enabled": s.MaxEnabled}
+		r.Note = map[string]interface{}{"msg": msg, "switches": s.Switches, "steps": s.Steps, "enabled": s.MaxEnabled, "obs": fmt.Sprintf("%v|%d|%d|%s", got, s.Steps, s.Switches, msg)}
 	}
 	c.Run(vSplitExplorer(c, budget, 6), body, func(r *vx.Run) {
 		if r.Note["horizon"] != nil {
